@@ -712,6 +712,38 @@ func TestC18(t *testing.T) {
 				break
 			}
 		}
+		// another writer (a second bus on the same store, as another process would be) adds messages
+		// after this bus's own last append; a session that is caught up with this bus's log and
+		// resumes through this bus sees them
+		if allOK && len(evs) > 0 {
+			caught := newSess(strict)
+			for _, e := range evs {
+				caught.mat.Apply(e)
+			}
+			from := caught.mat.LastOffset()
+			other := ebu.New(ebu.WithStore(st.Store))
+			late := []msgSpec{{Kind: "insert", Ent: "user", Key: "written-by-another-bus", Val: genUser(r)}, {Kind: "update", Ent: "user", Key: "written-by-another-bus", Val: genUser(r)}}
+			for _, sp := range late {
+				msg, err := build(sp)
+				if err != nil {
+					t.Fatal(err)
+				}
+				ebu.Publish(other, *msg.(*state.ChangeMessage))
+			}
+			rest, err := readFrom(ctx, st.Store, from)
+			if err != nil || len(rest) != len(late) {
+				t.Fatalf("the other writer's %d messages are not in the store after %q: %d (%v)", len(late), from, len(rest), err)
+			}
+			for i, sp := range late {
+				full.apply(sp, rest[i].Offset, strict)
+			}
+			if err := caught.mat.Replay(ctx, bus, from); err != nil {
+				viol("resume-replay-error", fmt.Sprintf("caught-up session resumed from LastOffset=%q after another bus appended %d messages: Replay returned %v", from, len(late), err))
+			} else if d := caught.diff(full, false); d != "" {
+				viol("two-session-differs", fmt.Sprintf("a session caught up with this bus's own log (LastOffset=%q) resumed through it after another bus on the same store had appended %d messages: %s", from, len(late), d))
+			}
+			run.Count("resumes_after_another_writer", 1)
+		}
 		st.Close()
 		hasResetAfterWrites, delReinsert := false, false
 		written := map[string]bool{}
